@@ -75,6 +75,18 @@ def wfWhy (g : Gram) : String :=
       else if !decide (MarkersWF g.markers) then "a state marker name contains a blank or a brace"
       else "a symbol index has no spelling"
 
+/-- every symbol spelled in a rule or precedence line is declared (`%token`/`%left`/`%right`/`%nonassoc`),
+is the left-hand side of a rule, or is `eoi` (the spelling of symbol 0, which the template never declares) -/
+def undeclared (cs : List Char) (eoi : Word) : Option Word :=
+  match chunks (fun w => w == kPP) (lexY cs), parseChars cs with
+  | ds :: _, some (rules, precs) =>
+    let declared := (parseDecls ds).flatMap fun d =>
+      if d.1 == kToken || (assocOf d.1).isSome then d.2 else []
+    let known := eoi :: declared ++ rules.map (·.lhs)
+    let used := rules.flatMap (fun r => r.rhs ++ r.prec.toList) ++ precs.flatMap (·.terms)
+    used.find? fun w => !known.contains w
+  | _, _ => some []
+
 def splitStmts (ws : List String) : List (List String) := chunks (fun w => w == ";") ws
 
 def firstDiff : Nat → List (List String) → List (List String) → Option (Nat × String × String)
@@ -85,8 +97,8 @@ def firstDiff : Nat → List (List String) → List (List String) → Option (Na
 
 /-- ops:
 `y <hex .y text> <numTokens> <names> <markers> <inputs> <prec> <rules>` →
-  `<dump of parseY text> | wf=<IdsWF etc. on the real spellings> tokens=<lexY text = lexY (render g)>`;
-`judge <go dump …> | wf=1 tokens=1 :: y …` → does the real `.y` text say something else than the
+  `<dump of parseY text> | wf=<IdsWF etc. on the real spellings> tokens=<lexY text = lexY (render g)> decl=<every symbol used is declared>`;
+`judge <go dump …> | wf=1 tokens=1 decl=1 :: y …` → does the real `.y` text say something else than the
 grammar the tables were built from? -/
 def handle (args : List String) : Option String :=
   match args with
@@ -98,7 +110,7 @@ def handle (args : List String) : Option String :=
     -- command is ""), so the token streams are compared without it
     let noEmpty := fun (ws : List Word) => ws.filter (fun w => !(w == kEmpty))
     let same := noEmpty (lexY cs) == noEmpty (lexY (renderChars g))
-    some s!"{dumpY cs} | wf={showBool (wfB g)} tokens={showBool same}"
+    some s!"{dumpY cs} | wf={showBool (wfB g)} tokens={showBool same} decl={showBool (undeclared cs (name g 0)).isNone}"
   | "judge" :: rest =>
     let goDump := rest.takeWhile (fun w => w != "|")
     match (rest.dropWhile (fun w => w != "::")) with
@@ -114,6 +126,8 @@ def handle (args : List String) : Option String :=
         | some (n, a, b) => some s!"violates: statement {n} of the .y file reads `{a}` but the tables were built from `{b}`"
         | none => some "violates: the .y file differs from the grammar the tables were built from"
       else if !wfB g then some s!"violates: {wfWhy g}"
+      else if let some w := undeclared cs (name g 0) then
+        some s!"violates: the .y file uses the symbol `{showWord w}` which is neither a declared token nor the left-hand side of a rule"
       else some "holds"
     | _ => none
   | _ => none
